@@ -65,6 +65,15 @@ Fixpoint strip_decls (t : xtree) : xtree :=
   | _ => t
   end.
 
+(** Attributes in no namespace: what [unqualifiedAttrReader] (caldav/elements.go)
+    lets through to the decoder of a REPORT request. *)
+Definition drop_foreign (a : list xattr) : list xattr := filter (fun x => str_empty (a_space x)) a.
+Fixpoint strip_foreign (t : xtree) : xtree :=
+  match t with
+  | Elem n a k => Elem n (drop_foreign a) (map strip_foreign k)
+  | _ => t
+  end.
+
 (** Un-namespaced attribute [l] (first occurrence): the RFC reader's view. *)
 Definition get_attr (l : string) (a : list xattr) : option string :=
   match find (fun x => name_eqb (fst x) ("", l)) a with
